@@ -113,7 +113,7 @@ def observe(case):
         report, anchors = build_report(case)
         rep = rpr.FullRepresenter() if case.get('figures') else rpr.TableRepresenter()
         try:
-            fmt = Rst(rpr.Representation(rep, Verbosity.FULL_DETAILS)).format_report(report=report, author='me', version='1')
+            fmt = Rst(rpr.Representation(rep, Verbosity.FULL_DETAILS), n_workers=case.get('workers')).format_report(report=report, author='me', version='1')
             fmt.write(target)
         except Exception as ex:  # pylint: disable=broad-except
             obs['rejected'] = True
@@ -196,7 +196,7 @@ def features(case):
 def vkey(case, clauses):
     if any(t.endswith('.rst') for t in case['title'][1:]):
         return 'C20/title-with-rst-suffix'          # one class whatever the symptom (see known_findings.d/C20.json)
-    return 'C20/%s/%s' % ('+'.join(clauses), features(case)[0])
+    return 'C20/%s/%s%s' % ('+'.join(clauses), features(case)[0], '/worker-pool' if case.get('workers') else '')
 
 
 def case_of_state(st, figures):
@@ -391,7 +391,21 @@ def run_c20(ctx):
             case['figures'] = True
     check_cases(ctx, cases, wd, 'enumerated', expected)
     ctx.cov['inputs'] = dict(enumerated_by_tlc=len(cases))
-
+    # the figures can be written by a pool of worker processes (the command line does it with 4): few and many
+    # figures for 2 and 4 workers (run in this process: a pool cannot be started from a pool worker)
+    wcases = []
+    for case in cases:
+        nfig = sum(case['nres'])
+        if nfig > 0 and '' not in case['title'][1:] and all(t in ('A', 'B', 'figures', 'conf') for t in case['title'][1:]):
+            sig = (nfig, len(case['parent']))
+            if sig not in [w[0] for w in wcases]:
+                wcases.append((sig, case))
+    wsel = []
+    for k, (sig, case) in enumerate(sorted(wcases, key=lambda x: x[0])[:ctx.pick(6, 16)]):
+        wsel.append(dict(case, figures=True, workers=(2, 4)[k % 2]))
+    if wsel:
+        check_cases(ctx, wsel, wd, 'figure-workers')
+        ctx.cov['inputs']['written_with_worker_pool'] = len(wsel)
     _tick(ctx, 'enumerated trees written + judged')
     # 3. code -> spec
     rcases = random_cases(ctx.rng, ctx.pick(1000, 20000), 0.01)
